@@ -99,6 +99,8 @@ def make_graph(rng, quick, hostile=False, clash=False, shape=None, extra=None, s
             if not [k for k in g.order if k[0] == u_]:
                 k = (u_, "i", str(7400 + j_)); g.nodes[k] = dict(cls="UAObject", bname=(u_, "Twin%d" % j_), display="Twin%d" % j_, desc=None, attrs={}, value=None); g.order.append(k)
                 g.refs.append(((UA, "i", "85"), k, (UA, "i", "35")))
+    elif shape == "enum":      # one namespace that is certain to have nodes; the caller adds an enumeration type and variables typed by it
+        g = nsgen.gen_graph(rng, n_ns=1, n_nodes=rng.randint(3, 5), hostile=False, dangling=False, value_gen=parseprops.value_gen)
     elif shape == "hub":
         g = nsgen.gen_graph(rng, n_ns=12, n_nodes=rng.randint(6, 10), hostile=False, dangling=False, value_gen=parseprops.value_gen)
     elif shape == "wide":      # ten namespaces with one or two nodes each and sparse dependencies: compaction over a long table
@@ -215,7 +217,7 @@ def make_graph(rng, quick, hostile=False, clash=False, shape=None, extra=None, s
     # the write-time validator (C16) must not interfere: a valued variable declares the built-in type of its value, or none that is built-in
     from opcua_tools import ua_data_types as T
     for k, n in list(g.nodes.items()):
-        if n["value"] is not None:
+        if n["value"] is not None and not n.get("keep_datatype"):
             name = type(n["value"]).__name__[2:]
             if name in nsgen.BUILTIN_IDS:
                 dk = (UA, "i", str(nsgen.BUILTIN_IDS[name]))
@@ -402,10 +404,12 @@ def run(ctx, prop):
     try:
         for ci in range({"quick": 14, "thorough": 300}[ctx.tier]):
             vlib.pandas_mode(ci + 1)
-            shape = {0: "skip-middle", 1: "markup-id", 2: "slash-twin", 3: "wide", 5: "attr-only", 6: "hub"}.get(ci % 7)
+            shape = {0: "skip-middle", 1: "markup-id", 2: "slash-twin", 3: "wide", 4: "enum", 5: "attr-only", 6: "hub"}.get(ci % 7)
             # the structural shapes are generated without hostile text, so that what they show is not attributed to the recorded escaping findings
             hostile = rng.random() < 0.4 and shape is None
-            g, ds = make_graph(rng, ctx.quick(), hostile=hostile, shape=shape, sort_first=(ci % 2 == 1))     # every second graph numbers its base nodes differently
+            # every seventh graph carries an enumeration type (with a second, valueless property) and variables typed by it: the typed value is part of the round trip
+            enums = (lambda g_: nsgen.add_enums(g_, random.Random(ci), n_types=1, flavours=["strings" if ci % 2 == 0 else "values"], n_vars=2, kinds=["in", "in"], placeholder=False, version_prop="ref-after")) if ci % 7 == 4 else None
+            g, ds = make_graph(rng, ctx.quick(), hostile=hostile, shape=shape, sort_first=(ci % 2 == 1), extra=enums)     # every second graph numbers its base nodes differently
             files = [(n, docs.render(d, rng)) for n, d, _ in ds]
             paths = graphprops.write_files(work, files)
             st, G = graphprops.build(paths)
@@ -449,6 +453,16 @@ def run(ctx, prop):
                         RT_REQS.append([Sym("c05_roundtrip"), E, T0.isoformat(), "NOW", tables[:4], [[os.path.join(work + "_rt", base[0][0]), base[0][1]]],
                                         [[u, os.path.join(work + "_rt", "w%02d.xml" % i)] for i, u in enumerate(targets)]])
                         RT_META.append((ci, rt_out, bool(causes & {"raw-nodeid-attribute", "quote-in-attribute", "uri-unescaped", "empty-namespace", "namespace-without-base-use"})))
+        # two fixed cases outside the generated graphs (oracle only)
+        if prop == "C06":
+            # a namespace of more than 100000 nodes (the size at which the parser, and whoever copies its habits, starts to work in batches)
+            for sig, detail in big_namespace_case(work + "_big", 100001): ctx.fail(sig, dict(kind="big-namespace", n=100001), detail)
+            ctx.record(dict(case="big-namespace", n=100001), True, ["big-namespace"])
+            shutil.rmtree(work + "_big", ignore_errors=True)
+        if prop == "C07":
+            for sig, detail in overwrite_case(work + "_ow"): ctx.fail(sig, dict(kind="overwrite"), detail)
+            ctx.record(dict(case="overwrite-existing-file"), True, ["file-output", "existing-longer-file"])
+            shutil.rmtree(work + "_ow", ignore_errors=True)
     finally:
         shutil.rmtree(work, ignore_errors=True)
     ans = vlib.run_model(reqs, shards=8)
@@ -615,8 +629,66 @@ def known_case(which):
     d = dict(uris=uris, models=model, aliases=None, nodes=nodes)
     return [("Opc.Ua.NodeSet2.xml", docs.render(_base_doc())), ("a.xml", docs.render(d))], write
 
+def big_namespace_case(work, n):
+    """C06 on a namespace of n more nodes than the small known case has (oracle only): every node of the namespace is declared exactly once"""
+    import pandas as pd, lxml.etree as ET
+    from opcua_tools.ua_graph import UAGraph
+    from opcua_tools.ua_data_types import UANodeId
+    files, uri = known_case("eventnotifier")
+    st, G = graphprops.build(graphprops.write_files(work, files))
+    if G is None: return [("C06/case-unbuildable", "%r" % (st,))]
+    ns = G.namespaces.index(uri)
+    tmpl = G.nodes[(G.nodes["NodeClass"] == "UAObject") & (G.nodes["ns"] == ns)].iloc[0].to_dict()
+    first = int(G.nodes["id"].max()) + 1
+    cols = {c: [tmpl[c]] * n for c in G.nodes.columns}
+    cols["id"] = list(range(first, first + n))
+    cols["NodeId"] = [UANodeId(ns, tmpl["NodeId"].nodeid_type, str(500000 + j)) for j in range(n)]
+    cols["BrowseName"] = ["Big%d" % j for j in range(n)]; cols["DisplayName"] = cols["BrowseName"]
+    nodes = pd.concat([G.nodes, pd.DataFrame(cols).astype(G.nodes.dtypes.to_dict())], ignore_index=True)
+    G2 = UAGraph(nodes=nodes, references=G.references, namespaces=G.namespaces, models=G.models)
+    want = sorted(str(x.value) for x in G2.nodes.loc[G2.nodes["ns"] == ns, "NodeId"])
+    fails = []
+    for inc in (True, False):
+        out = impl_write(G2, uri, inc)
+        if out[0] != "ok": fails.append(("C06/write-raises", "%d nodes, inc=%r: %s" % (n, inc, out[1:]))); continue
+        got = sorted(e.get("NodeId").split("=")[-1] for _, e in ET.iterparse(io.BytesIO(out[1].encode("utf-8")), events=("end",)) if ET.QName(e).localname.startswith("UA") and e.get("NodeId"))
+        if got != want:
+            from collections import Counter
+            twice = [k for k, c in Counter(got).items() if c > 1][:3]; lost = sorted(set(want) - set(got))[:3]
+            fails.append(("C06/nodes", "%d nodes in the namespace, %d node elements written (inc=%r); declared more than once: %r; missing: %r" % (len(want), len(got), inc, twice, lost)))
+    return fails
+
+def overwrite_case(work):
+    """C07 on output to a file PATH at which a longer document already stands: namespace A (many nodes) is written to model.xml, then namespace B (few nodes) to the same
+    path; what stands on disk afterwards must be the document a StringIO write of B gives"""
+    U1, U2 = "urn:known:long", "urn:known:short"
+    mod = lambda u: dict(attrs=[("ModelUri", u), ("Version", "1.0.0"), ("PublicationDate", "2020-01-01T00:00:00Z")], required=[[("ModelUri", UA), ("Version", "1.04"), ("PublicationDate", "2019-01-01T00:00:00Z")]])
+    d1 = dict(uris=[U1], models=[mod(U1)], aliases=None, nodes=[_node("UAObject", "ns=1;i=%d" % j, "1:Long%d" % j, refs=[("i=47", "false", "i=85")]) for j in range(1, 40)])
+    d2 = dict(uris=[U2], models=[mod(U2)], aliases=None, nodes=[_node("UAObject", "ns=1;i=1", "1:S", refs=[("i=47", "false", "i=85")])])
+    files = [("Opc.Ua.NodeSet2.xml", docs.render(_base_doc())), ("a.xml", docs.render(d1)), ("b.xml", docs.render(d2))]
+    st, G = graphprops.build(graphprops.write_files(work, files))
+    if G is None: return [("C07/case-unbuildable", "%r" % (st,))]
+    path = os.path.join(work, "model.xml")
+    fails = []
+    try:
+        for u in (U1, U2, U1, U2):
+            G.write_nodeset(path, u, last_modified=T0, publication_date=T0)
+            want = impl_write(G, u, True)
+            got = open(path, encoding="utf-8").read()
+            if want[0] != "ok" or got != want[1]:
+                fails.append(("C07/file-differs-from-document", "writing %s to a path that held a document of %s: %d characters on disk, the document has %d" % (u, "another namespace", len(got), len(want[1]) if want[0] == "ok" else -1)))
+                break
+            fails += [(s_, "file output over an existing file: " + d_) for s_, d_ in oracle_c07(u, ["ok", got])]
+    except BaseException as e:
+        fails.append(("C07/write-raises", "file output over an existing file: %s" % type(e).__name__))
+    return fails
+
 def case_replay(case, prop):
     """replay of a stored failing input (kind write / roundtrip): the oracle only, on the stored files"""
+    if case.get("kind") in ("big-namespace", "overwrite"):
+        work_ = os.path.join(vlib.WORK, "crx_%s_%d" % (prop, os.getpid()))
+        try: return big_namespace_case(work_, case["n"]) if case["kind"] == "big-namespace" else overwrite_case(work_)
+        finally: shutil.rmtree(work_, ignore_errors=True)
     work = os.path.join(vlib.WORK, "cr_%s_%d" % (prop, os.getpid()))
     try:
         files = [tuple(f) for f in case["files"]]
